@@ -19,7 +19,7 @@ ASSUMPTIONS = [
     "granularity: volume traded in the interval that contains the arrival instant counts as traded after arrival",
     "rounding: fragments are rounded to 2dp, 0.005 per (update, price level) event is tolerated",
     "the lone-order equality is asserted only for orders that were alone in their pool on the runner for their whole life and were not cancelled/voided in between",
-    "simulation_available_prices (documented double counting mode) is off",
+    "simulation_available_prices (documented double counting mode) is off; best_price_execution is off in a quarter of the scenarios",
 ]
 COMPONENTS = common.COMPONENTS_A
 MONITORS = [LedgerMonitor, PackageTracker, FillMonitor, PassiveMonitor]
@@ -51,6 +51,11 @@ def generate(rng, i, tier):
         clients=[{"bpe": True}],
     )
     sc["cfg"]["isolation"] = rng.random() < 0.7
+    import random
+
+    side = random.Random("c06-cfg|%d" % rng.getrandbits(32))
+    if side.random() < 0.25:
+        sc["clients"][0]["bpe"] = False  # best_price_execution off: orders priced through the book lapse, resting orders queue as always
     return sc
 
 
